@@ -315,23 +315,11 @@ func c06D2(c *rt.Ctx, m *c06Model) {
 						stored = append(stored, o.val)
 					}
 				}
-				opaque := false
-				path, esc := an.H06Escape(e.lk, an.H06Opt{Env: e.env(true), NoReenter: true,
-					Effect: func(in ssa.Instruction) bool {
-						for _, sv := range stored {
-							if c06RejectingComparison(m, in, sv) || c06RejectingCall(m, in, sv) {
-								return true
-							}
-							if c06OpaqueCheck(m, in, sv) {
-								opaque = true
-								return true
-							}
-						}
-						return false
-					},
-					Facts: c06ErrFacts, ReturnOK: c06RetOK})
+				path, esc, opaque, unknown := c06ClashEscapes(m, e.lk, e.env(true), stored, 0)
 				name := an.FuncName(fn) + " existing-key branch of " + short + " rejects clashes"
-				if !esc && opaque {
+				if !esc && unknown != "" {
+					c.Unsure(name, e.lk.Pos(), unknown)
+				} else if !esc && opaque {
 					c.Unsure(name, e.lk.Pos(), "the stored value is handed to a function value the rule cannot resolve (its error is propagated); cannot show that it compares the stored value with the new one")
 				} else {
 					c.Check(name, e.lk.Pos(), !esc,
@@ -354,7 +342,7 @@ func c06D2(c *rt.Ctx, m *c06Model) {
 			if !ok {
 				continue
 			}
-			if _, _, ok := an.FieldOf(mu.Map); ok {
+			if _, ok := c06MapField(mu.Map); ok {
 				continue
 			}
 			for _, t := range dataTypes {
@@ -552,7 +540,7 @@ func c06Lookups(fn *ssa.Function, field string) []*ssa.Lookup {
 	var out []*ssa.Lookup
 	for _, in := range an.Instrs(fn, false) {
 		if lk, ok := in.(*ssa.Lookup); ok {
-			if k, _, ok := an.FieldOf(lk.X); ok && k == field && an.IsMapType(lk.X.Type()) {
+			if k, ok := c06MapField(lk.X); ok && k == field && an.IsMapType(lk.X.Type()) {
 				out = append(out, lk)
 			}
 		}
@@ -950,7 +938,7 @@ func c06FnLabel(fn *ssa.Function) string {
 
 func c06SiteName2(m *c06Model, in ssa.Instruction) string {
 	if mu, ok := in.(*ssa.MapUpdate); ok {
-		k, _, _ := an.FieldOf(mu.Map)
+		k, _ := c06MapField(mu.Map)
 		return "insert " + k
 	}
 	return c06SiteName(m, in)
@@ -1327,7 +1315,7 @@ func c06D4(c *rt.Ctx, m *c06Model) {
 		for _, in := range an.Instrs(fn, false) {
 			switch x := in.(type) {
 			case *ssa.MapUpdate:
-				if k, _, ok := an.FieldOf(x.Map); ok && k == field && field == r.data {
+				if k, ok := c06MapField(x.Map); ok && k == field && field == r.data {
 					out = append(out, in)
 				}
 			case *ssa.Store:
@@ -1604,7 +1592,7 @@ func c06UnchangedLen(m *c06Model, e ssa.Instruction, field string) func(b *ssa.B
 		if bi, ok := call.Call.Value.(*ssa.Builtin); !ok || bi.Name() != "len" {
 			return nil
 		}
-		if k, _, ok := an.FieldOf(call.Call.Args[0]); !ok || k != field || !an.IsMapType(call.Call.Args[0].Type()) {
+		if k, ok := c06MapField(call.Call.Args[0]); !ok || k != field || !an.IsMapType(call.Call.Args[0].Type()) {
 			return nil
 		}
 		return call
@@ -2312,7 +2300,30 @@ func c06D5(c *rt.Ctx, m *c06Model) {
 		for _, r := range m.refs[fn] {
 			ci, ok := r.(*ssa.Call)
 			if !ok || m.funcOf(ci.Call.Value) != fn {
-				res = cUnknown // used as a value, deferred or started as a goroutine
+				// used as a value: every use hands it to an in-package helper that only calls it synchronously (the
+				// helper may be the drain loop itself: `drain(db.deadliner.C, db.deleteDutyUnsafe)`), or calls it directly
+				hs, ok := m.handOffs(r, fn)
+				if !ok {
+					res = cUnknown // stored, returned, deferred or started as a goroutine
+					continue
+				}
+				for _, h := range hs {
+					all := len(h.invs) > 0
+					for _, inv := range h.invs {
+						if !driven(inv) {
+							all = false
+						}
+					}
+					if all {
+						continue
+					}
+					switch confined(r.Parent(), seen) {
+					case cNo:
+						return cNo
+					case cUnknown:
+						res = cUnknown
+					}
+				}
 				continue
 			}
 			if driven(ci) {
@@ -2398,6 +2409,20 @@ func c06D5(c *rt.Ctx, m *c06Model) {
 				continue
 			}
 			g := m.funcOf(ci.Call.Value)
+			if g == nil && !ci.Call.IsInvoke() {
+				// a call through a function value every candidate of which deletes
+				if set, ok := m.dynamic(ci); ok && len(set.fns) > 0 {
+					all := true
+					for _, f := range set.fns {
+						if !deleters[f] {
+							all = false
+						}
+					}
+					if all {
+						g = set.fns[0]
+					}
+				}
+			}
 			if g == nil || !deleters[g] || ci.Call.IsInvoke() || !driven(ci) {
 				continue
 			}
@@ -2509,7 +2534,10 @@ func c06ZeroConst(c *ssa.Const) bool {
 func c06RecvOf(v ssa.Value, callee string) bool {
 	isChan := func(ch ssa.Value) bool {
 		call, ok := an.Resolve(ch).(*ssa.Call)
-		return ok && an.CalleeName(&call.Call) == callee
+		if ok && an.CalleeName(&call.Call) == callee {
+			return true
+		}
+		return ok && c06Cur != nil && c06Cur.chanGetterParam(call, callee)
 	}
 	v = an.Unwrap(v)
 	switch x := v.(type) {
